@@ -342,14 +342,14 @@ func generateRegexMatch(w io.Writer, lexerName, name, pattern string) error {
 
 		case syntax.OpStar: // matches Sub[0] zero or more times
 			fmt.Fprintf(w, "for len(s) > p {\n")
-			fmt.Fprintf(w, "if np := l%d(s, p); np == -1 { return p } else { p = np }\n", reid(re.Sub0[0]))
+			fmt.Fprintf(w, "if np := l%d(s, p); np == -1 || np == p { return p } else { p = np }\n", reid(re.Sub0[0])) // an empty iteration makes no progress
 			fmt.Fprintf(w, "}\n")
 			fmt.Fprintf(w, "return p\n")
 
 		case syntax.OpPlus: // matches Sub[0] one or more times
 			fmt.Fprintf(w, "if p = l%d(s, p); p == -1 { return -1 }\n", reid(re.Sub0[0]))
 			fmt.Fprintf(w, "for len(s) > p {\n")
-			fmt.Fprintf(w, "if np := l%d(s, p); np == -1 { return p } else { p = np }\n", reid(re.Sub0[0]))
+			fmt.Fprintf(w, "if np := l%d(s, p); np == -1 || np == p { return p } else { p = np }\n", reid(re.Sub0[0])) // an empty iteration makes no progress
 			fmt.Fprintf(w, "}\n")
 			fmt.Fprintf(w, "return p\n")
 
